@@ -277,6 +277,7 @@ func runProperty(def *PropDef, c *Check) {
 	c.ruleFailuresStayFailures("E12", fns)
 	c.ruleNoNewFailures("E13", fns)
 	c.ruleNoNewFieldDependence("E14", fns)
+	c.ruleLoopVarSliceStaysInIteration("E15", fns)
 }
 
 // acceptedErrorIdioms: sites of the confirmed tree where a failed call is deliberately answered with a
